@@ -6,6 +6,8 @@ check decides the premises, not the distribution:
  S2 R-WRAP  rexp samples numpy's exponential with scale = 1/rate
  S3 R-FR    the event fired is the argmin of the clocks, the time increment is that clock,
             nothing rescales either
+ S4 R-LOOKUP/R-GRIDIO  the state observed at a requested time t (on which the law is judged) is the state of
+            the simulated path at the last event time <= t
 """
 import ast
 
@@ -32,6 +34,12 @@ def check(repo, res, tier):
     S.check_newjumptimes(ctx, res)
     S.check_first_reaction(ctx, res, rule_step="R-FR", rule_fr="R-FR")
     S.check_checkjump(ctx, res)
+    # S4: the law is judged on the state *at a requested time*; for exact runs that is the last-event look-up
+    from . import C15
+    res.rule("R-LOOKUP", "the state reported at time t is the state of the path at the last event time <= t")
+    res.rule("R-GRIDIO", "exact runs on a grid route states through the last-event look-up with (states, times, grid)")
+    C15._check_lookup(repo, res, ctx.cls)
+    C15._check_gridio(repo, res, ctx.cls)
     # rexp
     f = repo.func(M.M_DISTN, "rexp")
     ps = f.params
